@@ -18,6 +18,10 @@ from pathlib import Path
 VERIF = Path(__file__).resolve().parent.parent
 SEEDED = VERIF / "seeded"
 REPO = "/repo"
+# VERIF_MUT_SCRATCH=<dir>: apply the changes to a scratch worktree of /repo's HEAD at <dir> (outside /repo
+# and /verif) and point the checks at it with VERIF_REPO, so that /repo itself stays untouched while
+# background runs use it.  The worktree and its build output are removed at the end.
+SCRATCH = os.environ.get("VERIF_MUT_SCRATCH")
 
 
 def _git(*args) -> subprocess.CompletedProcess:
@@ -25,6 +29,26 @@ def _git(*args) -> subprocess.CompletedProcess:
 
 
 def main(props, only=None, tier="quick") -> int:
+    global REPO
+    if SCRATCH:
+        subprocess.run(["git", "-C", "/repo", "worktree", "remove", "--force", SCRATCH], capture_output=True)
+        add = subprocess.run(["git", "-C", "/repo", "worktree", "add", "--detach", SCRATCH, "HEAD"],
+                             capture_output=True, text=True)
+        if add.returncode != 0:
+            print("HARNESS-ERROR cannot create scratch worktree: " + add.stderr.strip()[:200])
+            return 2
+        REPO = SCRATCH
+        os.environ["VERIF_REPO"] = SCRATCH
+    try:
+        return _main(props, only, tier)
+    finally:
+        if SCRATCH:
+            from sim import build
+            subprocess.run(["rm", "-rf", str(build.workspace_dir(Path(SCRATCH).resolve()))])
+            subprocess.run(["git", "-C", "/repo", "worktree", "remove", "--force", SCRATCH], capture_output=True)
+
+
+def _main(props, only=None, tier="quick") -> int:
     if _git("status", "--porcelain").stdout.strip():
         print("HARNESS-ERROR /repo has uncommitted changes; refusing to apply seeded changes")
         return 2
